@@ -91,6 +91,15 @@ def permute_frame(f, r):
     return f
 
 
+ZONE_TRANSITIONS = [
+    (1710054000, 'America/New_York'), (1730613600, 'America/New_York'),
+    (1711846800, 'Europe/London'), (1729990800, 'Europe/London'),
+    (1712415600, 'Australia/Lord_Howe'), (1728142200, 'Australia/Lord_Howe'),
+    (1550368800, 'America/Sao_Paulo'), (1541300400, 'America/Sao_Paulo'),
+    (1710036000, 'Africa/Casablanca'), (1713060000, 'Africa/Casablanca'),
+]
+
+
 def ts_value(r):
     """A timestamp input: naive / aware (utc, fixed offset, zoneinfo, fold)
     datetime or struct_time, biased to offset-transition instants."""
@@ -120,6 +129,12 @@ def ts_value(r):
             datetime.timedelta(seconds=off)))
     if k < 0.75:
         z = r.choice([z for z in ZONES if '/' in z])
+        if r.random() < 0.6:
+            # an instant in the hour before/after one of THIS zone's offset
+            # changes (ambiguous or skipped local times)
+            t0, z = r.choice(ZONE_TRANSITIONS)
+            aware = datetime.datetime.fromtimestamp(
+                t0 + r.randint(-3700, 3700), tz=UTC).replace(microsecond=us)
         dt = aware.astimezone(zoneinfo.ZoneInfo(z))
         if r.random() < 0.3:
             dt = dt.replace(fold=1 - dt.fold)
@@ -156,6 +171,8 @@ def confusable_groups():
         [127, 127.0, D(127)],
         [65535, 65535.0],
         [D('-1'), D('-1.0')],
+        [D('0.0000000001'), D('0.00000000012'), D('0.000000000123'),
+         D('0.0000000000001'), D('1.00000000001').normalize()],
         [naive, naive.replace(tzinfo=UTC)],
         [{'a': 1}, {'a': True}, {'a': 1.0}],
         [[1, 0], [True, False], [1.0, 0.0]],
@@ -183,6 +200,11 @@ def confusable_ts_ops():
                              'v': to_desc(dt)}))
             out.append((gi, {'op': 'enc', 'fn': 'field_table',
                              'v': {'d': [['t', to_desc(dt)]]}}))
+            for us in (0, 500000):
+                out.append((gi, {'op': 'marshal', 'frame': {
+                    'k': 'header', 'ch': 1, 'body_size': 1,
+                    'props': {'timestamp': to_desc(
+                        dt.replace(microsecond=us))}}}))
     gi += 1
     naive = datetime.datetime(2024, 7, 1, 12, 0, 0)
     for v in (naive, naive.replace(tzinfo=UTC),
@@ -363,6 +385,16 @@ def build_catalogue(check, seed, size):
                 if data is None:
                     continue
                 add({'op': 'unmarshal', 'b': data.hex()})
+                if d['k'] == 'header' and d['props'] and r.random() < 0.5:
+                    # same property values under other property names
+                    a = gen_a.alias_header(r, [d])
+                    adata = _try_encode(a) if a else None
+                    if adata is not None:
+                        gi = 300 + marker
+                        cat[-1] = dict(cat[-1], confusable=gi)
+                        cat.append({'op': 'unmarshal', 'b': adata.hex(),
+                                    'confusable': gi})
+                        twins.append({'op': 'remarshal', 'b': adata.hex()})
             elif c < 0.80:
                 if r.random() < 0.5:
                     d, data = gen_a.table_heavy_frame(r, g, marker)
@@ -652,8 +684,16 @@ def gen_trace(rng, check, population, tier, cat):
     if check == 'C11':
         tr['switch0'] = r.random() < 0.5
     threads = []
+    carry = []
     for t in range(n):
         prog = []
+        # equal-but-different siblings of what the previous thread encodes,
+        # first thing in this thread: both meet the same code early
+        for gi in carry:
+            sib = [o for o in cat if o.get('confusable') == gi]
+            if sib:
+                prog.extend(r.choice(sib) for _ in range(r.choice((1, 2))))
+        carry = []
         L = r.randint(4, 30) if not threaded else r.randint(3, 14)
         if population == 'long':
             L = r.randint(150, 400)
@@ -710,6 +750,9 @@ def gen_trace(rng, check, population, tier, cat):
                         # whatever an error path leaks adds up
                         prog.extend([op] * r.randint(40, 200))
             prog.append(op)
+            if 'confusable' in op and threaded and r.random() < 0.5 \
+                    and len(carry) < 3:
+                carry.append(op['confusable'])
             if 'confusable' in op and r.random() < 0.7:
                 # its equal-but-different siblings belong in the same history
                 sib = [o for o in cat if o.get('confusable') ==
